@@ -204,6 +204,49 @@ Proof.
     + constructor; [split; assumption|exact Hsk].
 Qed.
 
+(* the same nodes as the action reader sees them: each documented action with positional strings and value-less
+   tags is one action node whose tuple is the one supplied *)
+Ltac parsed_act_read L0 Hs :=
+  unfold acmd; cbn [aname aargs opt_args flag_args hv_arg ql_arg tag_arg app];
+  eexists; split;
+  [ eapply wf_act;
+    [ apply (gci_mono gen_tables L0 _ _ _ Hs); vmr | vm_compute; congruence | vmr | vmr | vmr | pargok
+    | apply (legal_mono _ L0 _ _ _ _ Hs); vmr | vmr | vm_compute; reflexivity ]
+  | split; [intro k; vmr | split; [vmr | run_read]] ].
+
+Lemma act_parsed_read : forall a L prev, act_ok a -> ract_ok a -> (forall e, In e (aexts a) -> mem e L = true) ->
+  exists n, wf_cmd gen_tables L prev (acmd qin a) n L /\
+            (forall k, walk (S k) n = [n]) /\ is_action n = true /\
+            action_tuple strip has_comma tolist n = ROk (aexpected a).
+Proof.
+  intros a L prev Hok Hr HL. pose proof (sub_of_in _ _ HL) as Hs. clear HL.
+  destruct a as [copy create flags folder|copy addr|reason| | |subject period from addresses handle mime reason];
+    cbn [act_ok aexts ract_ok] in *.
+  - destruct flags as [fl|]; [contradiction|]. cbn [hv_ok] in Hok; pfacts2; pfacts; destruct copy, create;
+      match type of Hs with sub ?L0 _ => parsed_act_read L0 Hs end.
+  - pfacts2; pfacts; destruct copy; match type of Hs with sub ?L0 _ => parsed_act_read L0 Hs end.
+  - pfacts2; pfacts; match type of Hs with sub ?L0 _ => parsed_act_read L0 Hs end.
+  - match type of Hs with sub ?L0 _ => parsed_act_read L0 Hs end.
+  - match type of Hs with sub ?L0 _ => parsed_act_read L0 Hs end.
+  - destruct subject, period, from, addresses, handle; try contradiction. cbn [osok] in Hok.
+    pfacts2; pfacts; destruct mime; match type of Hs with sub ?L0 _ => parsed_act_read L0 Hs end.
+Qed.
+
+Lemma acts_parsed_read : forall acts L prev, Forall act_ok acts -> Forall ract_ok acts ->
+  (forall e, In e (flat_map aexts acts) -> mem e L = true) ->
+  exists ks, wf_cmds gen_tables L prev (map (acmd qin) acts) ks L /\
+             (forall k, flat_map (walk (S k)) ks = ks) /\ actions ks = ROk (map aexpected acts).
+Proof.
+  induction acts as [|a r IH]; intros L prev H Hr HL.
+  - exists []. split; [constructor|]. split; reflexivity.
+  - inversion H as [|a' r' Ha Hrest]; subst. inversion Hr as [|a'' r'' Hra Hrrest]; subst. cbn [flat_map] in HL.
+    destruct (act_parsed_read a L prev Ha Hra) as (n & Hw & Hwk & Hia & Hat); [intros e He; apply HL; apply in_or_app; left; exact He|].
+    destruct (IH L (Some (d_name (node_def n))) Hrest Hrrest) as (ks & Hws & Hwks & Hak); [intros e He; apply HL; apply in_or_app; right; exact He|].
+    exists (n :: ks). split; [cbn [map]; eapply wf_cons; eassumption|]. split.
+    + intro k. cbn [flat_map]. rewrite Hwk, Hwks. reflexivity.
+    + cbn [actions_of]. rewrite Hia, Hat. cbn [rbind]. rewrite Hak. reflexivity.
+Qed.
+
 Lemma conditions_skip : forall l rest neg,
   Forall (fun n => is_named n k_not = false /\ ctuple_of n = None) l ->
   conditions (l ++ rest) neg = conditions rest neg.
@@ -263,6 +306,42 @@ Proof.
     rewrite M1. destruct anyof; vmr.
 Qed.
 
+(* C19, actions, on the tree the parser builds for a filter's script *)
+Theorem parsed_filter_actions : forall conds acts anyof L prev fuel,
+  conds <> [] -> Forall cond_ok conds -> Forall rcond_ok conds -> Forall act_ok acts -> Forall ract_ok acts ->
+  (forall e, In e (fexts conds acts) -> mem e L = true) -> 4 <= fuel ->
+  exists np, wf_cmd gen_tables L prev (fcmd qin conds acts anyof) np L /\
+             get_actions strip has_comma tolist fuel np = ROk (map aexpected acts).
+Proof.
+  intros conds acts anyof L prev fuel Hne Hc Hr Ha Hra HL Hfuel. unfold fexts in HL.
+  destruct (tests_parsed conds L Hc Hr) as (ns & Hns & Hrd); [intros e He; apply HL; apply in_or_app; left; exact He|].
+  destruct (acts_parsed_read acts L None Ha Hra) as (ks & Hks & Hwk & Hak); [intros e He; apply HL; apply in_or_app; right; exact He|].
+  assert (Hnsne : ns <> []). { destruct conds; [congruence|]. inversion Hns; discriminate. }
+  exists (if_node (mt_node anyof ns) ks). split.
+  - unfold fcmd, if_node, mt_node.
+    pose (dummy := mkArg [] [] false None None None None).
+    pose (ia := hd dummy (d_args (def_of (bs "if")))).
+    pose (ma := hd dummy (d_args (def_of (mt_name anyof)))).
+    change (bs "test") with (a_name ia).
+    assert (Em : bs "tests" = a_name ma) by (destruct anyof; vmr). rewrite Em.
+    destruct anyof;
+      (eapply wf_ctl; [vmr|vmr|vmr|vmr|vmr|vmr| |exact Hks];
+       eapply wf_list; [vmr|vmr|vmr|vmr|vmr| |exact Hns];
+       destruct conds; [congruence|discriminate]).
+  - destruct fuel as [|[|[|[|k]]]]; try lia.
+    assert (Wif : walk (S (S (S (S k)))) (if_node (mt_node anyof ns) ks) =
+                  if_node (mt_node anyof ns) ks ::
+                  ((mt_node anyof ns :: (flat_map (walk (S (S k))) ns ++ []) ++ []) ++ []) ++ flat_map (walk (S (S (S k)))) ks).
+    { rewrite (walk_S (S (S (S k)))). unfold walk_step at 1.
+      assert (Wm : walk (S (S (S k))) (mt_node anyof ns) = mt_node anyof ns :: (flat_map (walk (S (S k))) ns ++ []) ++ []).
+      { rewrite (walk_S (S (S k))). generalize (walk (S (S k))). intro w. destruct anyof; vm_compute; reflexivity. }
+      rewrite <- Wm. generalize (walk (S (S (S k)))). intro w. vm_compute. reflexivity. }
+    unfold get_actions. rewrite Wif, Hwk, !app_nil_r. cbn [app actions_of].
+    assert (A1 : is_action (if_node (mt_node anyof ns) ks) = false) by vmr.
+    assert (A2 : is_action (mt_node anyof ns) = false) by (destruct anyof; vmr).
+    rewrite A1, A2, (proj2 (Hrd k ks)). exact Hak.
+Qed.
+
 End Parsed.
 
 (* ---- instantiated with the models of the real helpers *)
@@ -318,6 +397,18 @@ Proof.
               conds acts anyof L prev fuel Hne Hc Hr Ha HL Hf) as (np & Hw & Hg & Hm).
   exists np. split; [exact Hw|]. split; [|exact Hm].
   unfold std_get_conditions. rewrite Hg. f_equal. apply map_ext. intro d. apply expected_is_supplied.
+Qed.
+
+Theorem factory_parsed_actions : forall conds acts anyof L prev fuel,
+  conds <> [] -> Forall cond_ok conds -> Forall rcond_ok conds -> Forall act_ok acts -> Forall ract_ok acts ->
+  (forall e, In e (fexts conds acts) -> mem e L = true) -> 4 <= fuel ->
+  exists np, wf_cmd gen_tables L prev (std_fcmd conds acts anyof) np L /\
+             std_get_actions fuel np = ROk (map (fun a => map fv_rv (atuple a)) acts).
+Proof.
+  intros conds acts anyof L prev fuel Hne Hc Hr Ha Hra HL Hf.
+  exact (parsed_filter_actions quote_if_necessary strip_dq std_has_comma std_tolist std_is_bracket all_digits render_list
+           std_qin_eq std_Hstrip std_Hcomma std_Hbr_s std_Hbr_r std_Hrl (fun n H => H)
+           conds acts anyof L prev fuel Hne Hc Hr Ha Hra HL Hf).
 Qed.
 
 Print Assumptions factory_parsed_filter.
@@ -409,4 +500,72 @@ Proof.
   intros e He. unfold loaded_after. destruct reqs as [|r0 rest]; [discriminate He|]. apply loaded_by_require; assumption.
 Qed.
 
+(* ---- the same with the actions: get_filter_actions on the reloaded set *)
+
+Lemma read_actions_ignores_comments : forall fuel n c,
+  std_get_actions fuel (with_comments n c) = std_get_actions fuel n.
+Proof.
+  intros [|k] [d a e ch c0] c; [reflexivity|].
+  unfold std_get_actions, get_actions. rewrite !walk_S. unfold walk_step, with_comments.
+  cbn [node_def node_args node_extra node_children]. reflexivity.
+Qed.
+
+Definition def_acts (d : fdef) : list dact := let '(_, a, _) := d in a.
+
+Definition read_ok_full (fuel : nat) (d : fdef) (flt : node) : Prop :=
+  read_ok fuel d flt /\ std_get_actions fuel flt = ROk (map (fun a => map fv_rv (atuple a)) (def_acts d)).
+
+Lemma tops_read_full : forall np dp reqs fuel L sfs defs prev nps,
+  4 <= fuel ->
+  Forall (sf_ok np dp reqs fuel) sfs -> (forall e, mem e reqs = true -> mem e L = true) ->
+  Forall2 def_ok sfs defs -> Forall (fun d => Forall ract_ok (def_acts d)) defs ->
+  wf_tops gen_tables L prev (map (fun x => (sf_cms np dp x, sf_g x)) sfs) nps L ->
+  Forall2 (fun xd n => exists flt, got (sf_dis (fst xd)) n flt /\ read_ok_full fuel (snd xd) flt) (combine sfs defs) nps.
+Proof.
+  intros np dp reqs fuel L sfs defs prev nps Hfuel Hok HL Hd. revert prev nps Hok.
+  induction Hd as [|x [[c a] any] sfs defs (Hne & Hc & Hr & Ha & He & Hg) Hrest IH]; intros prev nps Hok Hra W.
+  - inversion W; subst. constructor.
+  - inversion Hok as [|x' r' [_ [Hex _]] Hokr]; subst.
+    inversion Hra as [|d0 r0 Hra1 Hrar]; subst. cbn [def_acts] in Hra1.
+    cbn [map] in W. inversion W as [|L0 p0 cms g n L1 rest ns L2 Wc Wr]; subst.
+    assert (HLc : forall e, In e (fexts c a) -> mem e L = true) by (intros e Hin; apply HL, Hex; rewrite He; exact Hin).
+    cbn [combine].
+    destruct (sf_dis x) eqn:Ed.
+    + destruct (factory_parsed_filter c a any L None fuel Hne Hc Hr Ha HLc Hfuel) as (np0 & W0 & Hg0 & Hm0).
+      destruct (factory_parsed_actions c a any L None fuel Hne Hc Hr Ha Hra1 HLc Hfuel) as (np1 & W1 & Ha1).
+      destruct (wf_cmd_fun gen_tables _ L None np1 L np0 L W1 W0) as [-> _].
+      destruct (wrapped_wf L prev _ np0 W0) as (nw & Ww & Hch).
+      rewrite Hg in Wc. destruct (wf_cmd_fun gen_tables _ L prev n L1 nw L Wc Ww) as [-> ->].
+      constructor; [|apply (IH _ _ Hokr Hrar Wr)].
+      exists np0. cbn [fst snd]. rewrite Ed. split; [|split; [split; assumption|exact Ha1]].
+      unfold got. destruct nw as [dn an en chn cn]. cbn [with_comments node_children] in *. rewrite Hch. reflexivity.
+    + destruct (factory_parsed_filter c a any L prev fuel Hne Hc Hr Ha HLc Hfuel) as (np0 & W0 & Hg0 & Hm0).
+      destruct (factory_parsed_actions c a any L prev fuel Hne Hc Hr Ha Hra1 HLc Hfuel) as (np1 & W1 & Ha1).
+      destruct (wf_cmd_fun gen_tables _ L prev np1 L np0 L W1 W0) as [-> _].
+      rewrite Hg in Wc. destruct (wf_cmd_fun gen_tables _ L prev n L1 np0 L Wc W0) as [-> ->].
+      constructor; [|apply (IH _ _ Hokr Hrar Wr)].
+      eexists. cbn [fst snd]. rewrite Ed. split; [reflexivity|].
+      destruct (read_ignores_comments fuel np0 (map strip_ws (sf_cms np dp x))) as (E1 & E2).
+      unfold read_ok_full, read_ok. cbn [def_acts]. rewrite E1, E2, read_actions_ignores_comments. auto.
+Qed.
+
+(* C19 on a reloaded set, conditions, match type AND actions: every filter of the parsed script is read back by
+   get_filter_conditions / get_filter_matchtype / get_filter_actions as it was defined *)
+Theorem reload_read_back_full : forall np dp loaded fuel reqs sfs defs,
+  sfs <> [] -> kreqs reqs -> Forall (sf_ok np dp reqs fuel) sfs -> 4 <= fuel ->
+  Forall2 def_ok sfs defs -> Forall (fun d => Forall ract_ok (def_acts d)) defs ->
+  exists text ns nps,
+    render_set gen_tables loaded fuel np dp (mkBS reqs (map sf_bf sfs)) = BOk text /\
+    parse gen_tables text = Accept ns /\
+    match reqs with [] => ns = nps | _ => ns = req_pnode reqs :: nps end /\
+    Forall2 (fun xd n => exists flt, got (sf_dis (fst xd)) n flt /\ read_ok_full fuel (snd xd) flt) (combine sfs defs) nps.
+Proof.
+  intros np dp loaded fuel reqs sfs defs Hne Hk Hok Hfuel Hd Hra.
+  destruct (factory_set_accepted np dp loaded fuel reqs sfs Hne Hk Hok ltac:(lia)) as (text & ns & nps & Hr & Hp & _ & Hns & W).
+  exists text, ns, nps. split; [exact Hr|]. split; [exact Hp|]. split; [exact Hns|].
+  apply (tops_read_full np dp reqs fuel (loaded_after reqs) sfs defs (prev_after reqs) nps Hfuel Hok); [|exact Hd|exact Hra|exact W].
+  intros e He. unfold loaded_after. destruct reqs as [|r0 rest]; [discriminate He|]. apply loaded_by_require; assumption.
+Qed.
+
+Print Assumptions reload_read_back_full.
 Print Assumptions reload_read_back.
